@@ -113,18 +113,15 @@ func (n *NameTrie[V]) Delete() {
 // DeleteIf deletes the node and its ancestors if they are empty.
 // Whether empty or not is defined by a given function.
 func (n *NameTrie[V]) DeleteIf(pred func(V) bool) {
-	if !pred(n.val) {
+	// Children may hold values of their own: a node that still has children stays.
+	if !pred(n.val) || len(n.chd) > 0 {
 		return
 	}
-	if n.par != nil {
-		n.chd = nil
+	// Unlink only if the parent still points at this node: it may have been
+	// removed earlier and replaced by a new node with the same key.
+	if n.par != nil && n.par.chd[n.key] == n {
 		delete(n.par.chd, n.key)
-		if len(n.par.chd) == 0 {
-			n.par.DeleteIf(pred)
-		}
-	} else {
-		// Root node cannot be deleted.
-		n.chd = map[string]*NameTrie[V]{}
+		n.par.DeleteIf(pred)
 	}
 }
 
